@@ -81,18 +81,8 @@ def once_per_use(ctx, facts, roles, p, cfg, name, e, K2="K2", K3="K3"):
         if is_list:
             ctx.fail(K2 + ".no-prepass", "%s|list-parser" % name, "%s parses its whole operand list up front: a malformed operand after the deciding one makes the operation fail" % name, where=s.where(), fn=s.body.key)
             continue
-        if generic_rule or ctxk:
-            ctx.check(ctxk in ("loop", "closure"), K2 + ".per-element", "%s: %s at %s (%s)" % (name, c["path"].rsplit("::", 1)[-1], s.where(), cfg),
-                      "%s touches operands drawn from the operand list outside the per-element code (%s)" % (name, c["path"]), where=s.where(), fn=s.body.key, nontrivial=True,
-                      sample={"operator": name, "call": c["path"], "context": ctxk, "tags": sorted(tags)})
-        else:
-            # constant operand index outside the loop: only `if`'s prologue
-            ctx.check(name == "if", K2 + ".prologue", "%s: %s at %s (%s)" % (name, c["path"].rsplit("::", 1)[-1], s.where(), cfg),
-                      "%s evaluates a fixed operand outside the per-element code" % name, where=s.where(), fn=s.body.key)
-            if s.body.key == root.key:
-                again = sorted(iter_blocks & root.reachable(s.bi))
-                ctx.check(not again, K2 + ".prologue-returns", "%s: after the prologue's %s the iteration over the operands is not entered (%s, %s)" % (name, c["path"].rsplit("::", 1)[-1], s.where(), cfg),
-                          "%s handles a fixed operand before the iteration and then still enters the iteration: that operand is parsed/evaluated twice" % name, where=s.where(), fn=s.body.key, nontrivial=True)
+        # (which operands a site touches, and that no operand is evaluated twice, is decided below on operand
+        #  descriptors — rules/operands.py — not on whether the site is written inside a loop or a closure)
     # parser fn items handed to adaptors (`.map(Parsed::from_value)`)
     for b in u.bodies:
         for bi, t in b.calls():
@@ -114,7 +104,8 @@ def once_per_use(ctx, facts, roles, p, cfg, name, e, K2="K2", K3="K3"):
             pe_bodies[cur.key] = cur
         elif k == "loop":
             pe_bodies[s.body.key] = s.body
-    ctx.need(pe_bodies, "%s has no per-element code" % name)
+    if not pe_bodies:
+        ctx.unread(K3 + ".skippable", "%s (%s)" % (name, cfg), "%s walks its operands neither in a loop nor through an iterator adaptor: whether operands after the deciding one are skipped is not read" % name, where=root.where(), fn=root.key)
     is_interp = lambda t: callee_of(t) is not None and (callee_of(t).get("key") in sink_keys or callee_of(t).get("key") in roles.evaluators)
     is_eval = lambda t: callee_of(t) is not None and callee_of(t).get("key") in roles.evaluators
     for k, b in pe_bodies.items():
@@ -124,9 +115,6 @@ def once_per_use(ctx, facts, roles, p, cfg, name, e, K2="K2", K3="K3"):
             skip = path_avoiding(b, is_blocked)
             ctx.check(skip, K3 + ".skippable", "%s: per-element closure has a path without parse/evaluate (%s)" % (name, cfg),
                       "every path through %s's per-element code parses or evaluates its operand: operands after the deciding one are still evaluated" % name, where=b.where(), fn=b.key, nontrivial=True)
-            m = max_calls_on_a_path(b, is_eval)
-            ctx.check(m <= 1, K3 + ".once", "%s: at most one evaluation per element (%s)" % (name, cfg), "a path through %s's per-element code evaluates %d times" % (name, m), where=b.where(), fn=b.key, nontrivial=True,
-                      sample={"operator": name, "max_evaluations_per_element": m})
         else:
             # loop form: an exit out of the loop other than the iterator's None edge (early return)
             early = False
@@ -140,8 +128,136 @@ def once_per_use(ctx, facts, roles, p, cfg, name, e, K2="K2", K3="K3"):
                             early = True
             ctx.check(early, K3 + ".skippable", "%s: the operand loop can be left after an evaluation (%s)" % (name, cfg),
                       "%s's loop over the operands has no early exit after evaluating an element" % name, where=b.where(), fn=b.key, nontrivial=True)
+    at_most_once(ctx, facts, roles, u, name, cfg, K2)
     u.iter_blocks = iter_blocks
     return u
+
+
+def at_most_once(ctx, facts, roles, u, name, cfg, K2="K2"):
+    """No operand of the operand list is evaluated twice: evaluation sites whose operand descriptors are not
+    disjoint must not both run for the same operand (rules/operands.py)."""
+    from . import operands as OD
+    from .core import strip_payload
+    root = u.root
+    eval_key = roles.parsed_evaluate
+    sink_keys = set(roles.sinks)
+    args_param = None
+    for l in range(1, root.arg_count + 1):
+        if "std::vec::Vec<&" in root.local_ty(l):
+            args_param = l
+    ctx.need(args_param is not None, "%s: operand-list parameter not identified" % name)
+    sites = []
+    interp_keys = set(roles.evaluators) | sink_keys | ({roles.conv.key} if getattr(roles, "conv", None) is not None else set())
+
+    def anchor_of(b, bi):
+        """Block of the root function at which code at (b, bi) runs (through closures and helper calls)."""
+        cur, anchor = b, bi
+        hops = 0
+        while cur.key != root.key and hops < 8:
+            hops += 1
+            if cur.kind == "closure" and cur.creator():
+                parent = cur.creator()[0]
+                anchor = None
+                for bj, t in parent.calls():
+                    for a_ in t["args"]:
+                        xa = strip_refs(parent.trace(a_))
+                        if xa[0] == "agg" and xa[1].get("closure") == cur.key:
+                            anchor = bj
+                if anchor is None:
+                    for bj, sj, st in parent.stmts():
+                        if st["k"] == "Assign" and st["rv"]["k"] == "Aggregate" and st["rv"].get("closure") == cur.key:
+                            anchor = bj
+                cur = parent
+                if anchor is None:
+                    return None
+            else:
+                return None
+        return anchor if cur.key == root.key else None
+
+    def add_site(sx, b, x, at_body, at_bi, depth=0):
+        """x: operand reference expression, x-traced in body b; (at_body, at_bi): where the evaluation happens as seen
+        from the unit's root (the helper's call site when the evaluation sits in a helper)."""
+        if x is not None and depth < 4:
+            owner = b
+            while owner.kind == "closure" and owner.creator():
+                owner = owner.creator()[0]
+            if owner.key != root.key and owner.kind == "fn" and expr_mentions(x, lambda y: y[0] == "arg"):
+                # the operand is stated in terms of a helper's parameters: one site per call of the helper, with the
+                # parameters replaced by what the caller passes
+                callers = [s2 for s2 in u.calls(lambda c, _k=owner.key: c.get("key") == _k)]
+                if callers:
+                    for s2 in callers:
+                        def sub(e_):
+                            if not isinstance(e_, tuple):
+                                return e_
+                            if e_[0] == "arg" and isinstance(e_[1], int) and e_[1] - 1 < len(s2.term["args"]):
+                                return s2.body.xtrace(s2.term["args"][e_[1] - 1])
+                            return tuple([sub(y) for y in z] if isinstance(z, list) else sub(z) for z in e_)
+                        add_site(sx, s2.body, sub(x), s2.body, s2.bi, depth + 1)
+                    return
+        d = OD.describe(b, x, args_param) if x is not None else OD.Descriptor("unknown", None, text="evaluated value is not the result of a parse at this site")
+        if x is not None and (d.kind == "unknown" or (d.view is not None and d.view[0] == "unknown")):
+            # not an operand of the list itself but something inside the *value* of one (the members of an evaluated
+            # collection): which members are rule text is C14's clause, not a second evaluation of the operand
+            if expr_mentions(x, lambda y: y[0] == "call" and y[1] is not None and y[1].get("key") in interp_keys) or (
+                    d.src is not None and expr_mentions(d.src, lambda y: y[0] == "call" and y[1] is not None and y[1].get("key") in interp_keys)):
+                return
+        sites.append((Site_(at_body, at_bi), d, anchor_of(at_body, at_bi), at_body))
+
+    class Site_:
+        def __init__(self, body, bi):
+            self.body, self.bi = body, bi
+
+        def where(self):
+            return self.body.where(self.bi)
+    for sx in u.calls(lambda c: c.get("key") == eval_key):
+        b = sx.body
+        recv = strip_payload(strip_refs(b.xtrace(sx.term["args"][0])))
+        x = None
+        if recv[0] == "call" and recv[1] and recv[1].get("key") in sink_keys and recv[2]:
+            pos = roles.sinks[recv[1]["key"]][0]
+            x = recv[2][pos - 1] if len(recv[2]) >= pos else recv[2][-1]
+        add_site(sx, b, x, b, sx.bi)
+    ctx.count("%s: evaluation sites with operand descriptors (%s)" % (name, cfg), [repr(d) for _, d, _, _ in sites])
+
+    def same_iteration_reach(body, frm, to):
+        """to reachable from frm without taking a back edge (i.e. inside one iteration / one call)."""
+        back = set(body.back_edges())
+        seen, st = set(), [frm]
+        while st:
+            x = st.pop()
+            for y in body.succs(x):
+                if (x, y) in back or y in seen:
+                    continue
+                seen.add(y)
+                st.append(y)
+        return to in seen
+    for i in range(len(sites)):
+        for j in range(i + 1, len(sites)):
+            (s1, d1, a1, b1), (s2, d2, a2, b2) = sites[i], sites[j]
+            if OD.disjoint(d1, d2):
+                ctx.ok(K2 + ".at-most-once", "%s: %s and %s denote different operands (%s)" % (name, d1, d2, cfg), nontrivial=True)
+                continue
+            # can one run execute both for the same operand?
+            same_iter = d1.kind == "elem" and d2.kind == "elem" and d1.iteration == d2.iteration
+            if b1.key == b2.key:
+                co = same_iteration_reach(b1, s1.bi, s2.bi) or same_iteration_reach(b1, s2.bi, s1.bi) if same_iter or b1.kind == "closure" else (s2.bi in b1.reachable(s1.bi) or s1.bi in b1.reachable(s2.bi))
+            elif a1 is None or a2 is None:
+                co = True
+            elif a1 == a2:
+                co = True
+            else:
+                co = a2 in root.reachable(a1) or a1 in root.reachable(a2)
+            if not co:
+                ctx.ok(K2 + ".at-most-once", "%s: %s / %s never run for the same operand (%s)" % (name, s1.where(), s2.where(), cfg), nontrivial=True)
+                continue
+            if d1.kind == "unknown" or d2.kind == "unknown":
+                ctx.unread(K2 + ".at-most-once", "%s: %s ~ %s (%s)" % (name, s1.where(), s2.where(), cfg), "cannot tell which operands the evaluations at %s (%s) and %s (%s) denote" % (s1.where(), d1, s2.where(), d2), where=s2.where(), fn=b2.key)
+                continue
+            ctx.fail(K2 + ".per-element", "%s: evaluate at %s and at %s (%s)" % (name, s1.where().rsplit(":", 1)[0], s2.where().rsplit(":", 1)[0], cfg),
+                     "%s can evaluate one operand twice: the evaluation at %s denotes %s, the one at %s denotes %s, and one run can reach both" % (name, s1.where(), d1, s2.where(), d2), where=s2.where(), fn=b2.key)
+    if len(sites) == 1:
+        ctx.ok(K2 + ".at-most-once", "%s: one evaluation site %s (%s)" % (name, sites[0][1], cfg), nontrivial=True)
 
 
 def run(ctx):
